@@ -24,6 +24,7 @@
 #include "stir/VoxelsOnCartesianGrid.h"
 #include "stir/IndexRange3D.h"
 #include "stir/Succeeded.h"
+#include "stir/IO/write_to_file.h"
 #include <cmath>
 #include <algorithm>
 #include <map>
@@ -373,8 +374,12 @@ local_scale(const Cfg& c, int z, int y, int x, bool both_directions)
   return s * std::fabs(c.pf);
 }
 
+// `reuse`: an EXISTING prior object (already used with other images / parsed / modified by setters) whose members the caller has brought
+// to the configuration c0 (penalisation factor, parameters, kappa = c0.kappa; weights: whatever the object holds, c0.pf != 0).  It is set
+// up again for the new image, and all clauses of the property are then evaluated on it exactly as on a fresh object; the weights the
+// object holds are read back and given to the model and to the fresh comparison objects of the oracle as user weights.
 static void
-run_case(const Cfg& c0, vh::Rng& rng, bool fd_friendly)
+run_case(const Cfg& c0, vh::Rng& rng, bool fd_friendly, shared_ptr<Prior> reuse = shared_ptr<Prior>())
 {
   ++case_id;
   Cfg c = c0;
@@ -383,9 +388,24 @@ run_case(const Cfg& c0, vh::Rng& rng, bool fd_friendly)
   const bool pls = c.kind == 'P';
   // PLS: smaller dynamic range (conditioning of sqrt(alpha^2+|g|^2-<g,xi>^2) in float)
   fill_positive(*cur, b, rng, fd_friendly || rng.coin(), 0.5F, pls ? 2.5F : 8.5F);
-  shared_ptr<Prior> P = build(c, c.pf, cur);
+  shared_ptr<Prior> P;
+  if (reuse)
+    {
+      P = reuse;
+      if (P->set_up(cur) != Succeeded::yes)
+        throw std::runtime_error("set_up failed (reused object)");
+    }
+  else
+    P = build(c, c.pf, cur);
   const double v0 = P->compute_value(*cur);
 
+  if (reuse && !pls)
+    {
+      c.w = read_weights(c, *P);
+      c.userw = true;
+      if (c.wclass == "default")
+        c.wclass = "held";
+    }
   // ---- default weights are computed lazily on first use: read them back (and send them to the model as data)
   if (!pls && !c.userw)
     {
@@ -1044,6 +1064,809 @@ gen_cfg(vh::Rng& rng, char kind, int k, bool thorough)
   return c;
 }
 
+
+// ================================================================================================ object life cycle
+// The ops `onew oparse obox okappa oanat osetw oset osetup ocall owts` describe what is done to ONE prior object; the Lean driver keeps
+// the members of the object (Model.lean: NbPrior) and answers every call from them.  Covered here and nowhere else:
+//  * the lazy `compute_weights` block of EVERY API function (first call on a fresh object is that function),
+//  * an object that is set up again for an image of another size / voxel size (set_up does not touch the weights),
+//  * objects configured by parse(): `weights :=` (post_processing re-indexes to -n/2.., even sizes), `only 2D`, `kappa filename`,
+//  * setters (penalisation factor, gamma, epsilon, scalar, weights, kappa; PLS: only_2D, alpha, eta) on an object that has been used.
+static std::string scratch_prefix;
+
+static const char* const KEY_STALE = "neighbourhood-priors:default-weights-stale-after-set_up-with-other-voxel-size";
+
+static std::vector<std::string>
+fns_of(char kind)
+{
+  if (kind == 'Q')
+    return { "value", "grad", "hrow", "htimes", "approx", "surr" };
+  if (kind == 'R')
+    return { "value", "grad", "hrow", "htimes" };
+  if (kind == 'L')
+    return { "value", "grad", "hrow", "htimes", "surr" };
+  return { "value", "grad" };
+}
+static void
+set_weights_of(char kind, Prior& p, const Array<3, float>& w)
+{
+  if (kind == 'Q')
+    dynamic_cast<QuadraticPrior<float>&>(p).set_weights(w);
+  else if (kind == 'R')
+    dynamic_cast<RelativeDifferencePrior<float>&>(p).set_weights(w);
+  else if (kind == 'L')
+    dynamic_cast<LogcoshPrior<float>&>(p).set_weights(w);
+}
+static void
+set_kappa_of(char kind, Prior& p, const VoxP& k)
+{
+  if (kind == 'Q')
+    dynamic_cast<QuadraticPrior<float>&>(p).set_kappa_sptr(shared_ptr<const Img>(k));
+  else if (kind == 'R')
+    dynamic_cast<RelativeDifferencePrior<float>&>(p).set_kappa_sptr(shared_ptr<Img>(k));
+  else if (kind == 'L')
+    dynamic_cast<LogcoshPrior<float>&>(p).set_kappa_sptr(shared_ptr<Img>(k));
+  else
+    dynamic_cast<PLSPrior<float>&>(p).set_kappa_sptr(shared_ptr<const Img>(k));
+}
+static shared_ptr<const Img>
+get_kappa_of(char kind, Prior& p)
+{
+  if (kind == 'Q')
+    return dynamic_cast<QuadraticPrior<float>&>(p).get_kappa_sptr();
+  if (kind == 'R')
+    return dynamic_cast<RelativeDifferencePrior<float>&>(p).get_kappa_sptr();
+  if (kind == 'L')
+    return dynamic_cast<LogcoshPrior<float>&>(p).get_kappa_sptr();
+  return dynamic_cast<PLSPrior<float>&>(p).get_kappa_sptr();
+}
+
+struct Life
+{
+  Cfg c;               // the members of the object as the harness set them (kind, pf, only2d, gamma, eps, scalar, alpha, eta, kappa, anat, box, sp)
+  shared_ptr<Prior> P; // THE object
+  VoxP cur, inp, out0;
+  int rz, ry, rx;      // Hessian row asked for
+};
+
+static std::string
+call_fn(char kind, Prior& p, const std::string& fn, const Life& L)
+{
+  const Box& b = L.c.b;
+  if (fn == "value")
+    return vh::hex(p.compute_value(*L.cur));
+  if (fn == "grad")
+    return dump(*api_grad(p, *L.cur), b);
+  if (fn == "htimes")
+    return dump(*api_htimes(p, *L.cur, *L.inp, L.out0.get()), b);
+  if (fn == "hrow")
+    return dump(*api_hrow(p, *L.cur, L.rz, L.ry, L.rx), b);
+  if (fn == "approx")
+    {
+      VoxP o(L.out0->clone());
+      p.add_multiplication_with_approximate_Hessian(*o, *L.inp);
+      return dump(*o, b);
+    }
+  VoxP o(L.cur->get_empty_copy());
+  o->fill(555.F);
+  dynamic_cast<PriorWithParabolicSurrogate<Img>&>(p).parabolic_surrogate_curvature(*o, *L.cur);
+  return dump(*o, b);
+}
+static std::string
+fn_op(const std::string& fn, const Life& L)
+{
+  char buf[200];
+  std::snprintf(buf, sizeof buf, "ocall %s %s %s %s", vh::hex(L.c.sp[0]).c_str(), vh::hex(L.c.sp[1]).c_str(), vh::hex(L.c.sp[2]).c_str(), fn.c_str());
+  std::string s = buf;
+  if (fn == "hrow")
+    {
+      std::snprintf(buf, sizeof buf, " %d %d %d", L.rz, L.ry, L.rx);
+      s += buf;
+    }
+  return s;
+}
+static std::string
+wts_answer(const Array<3, float>& w)
+{
+  const Box wb = wbox(w);
+  std::ostringstream a;
+  a << wb.z0 << ' ' << wb.z1 << ' ' << wb.y0 << ' ' << wb.y1 << ' ' << wb.x0 << ' ' << wb.x1;
+  if (w.get_length() > 0)
+    a << ' ' << dumpw(w);
+  return a.str();
+}
+
+static void
+o_new(Life& L)
+{
+  const Cfg& c = L.c;
+  char buf[300];
+  std::snprintf(buf, sizeof buf, "onew %c %s %d %s %s %s", c.kind, vh::hex(c.pf).c_str(), c.only2d ? 1 : 0, vh::hex(c.gamma).c_str(),
+                vh::hex(c.eps).c_str(), vh::hex(c.scalar).c_str());
+  if (c.kind == 'Q')
+    L.P.reset(new QuadraticPrior<float>(c.only2d, c.pf));
+  else if (c.kind == 'R')
+    L.P.reset(new RelativeDifferencePrior<float>(c.only2d, c.pf, c.gamma, c.eps));
+  else if (c.kind == 'L')
+    L.P.reset(new LogcoshPrior<float>(c.only2d, c.pf, c.scalar));
+  else
+    L.P.reset(new PLSPrior<float>(c.only2d, c.pf));
+  emit(buf, "ok");
+}
+static void
+o_box(Life& L)
+{
+  const Box& b = L.c.b;
+  char buf[200];
+  std::snprintf(buf, sizeof buf, "obox %d %d %d %d %d %d", b.z0, b.z1, b.y0, b.y1, b.x0, b.x1);
+  emit(buf, "ok");
+}
+static void
+o_kappa(Life& L, const VoxP& k)
+{
+  L.c.kappa = k;
+  set_kappa_of(L.c.kind, *L.P, k);
+  emit(k ? "okappa 1 " + dump(*k, L.c.b) : std::string("okappa 0"), "ok");
+}
+static void
+o_setw(Life& L, const Array<3, float>& w)
+{
+  set_weights_of(L.c.kind, *L.P, w);
+  emit("osetw " + wts_answer(w), "ok");
+}
+static void
+o_set(Life& L, const std::string& what, double v)
+{
+  Cfg& c = L.c;
+  if (what == "pf")
+    {
+      c.pf = static_cast<float>(v);
+      L.P->set_penalisation_factor(c.pf);
+    }
+  else if (what == "gamma")
+    {
+      c.gamma = static_cast<float>(v);
+      dynamic_cast<RelativeDifferencePrior<float>&>(*L.P).set_gamma(c.gamma);
+    }
+  else if (what == "eps")
+    {
+      c.eps = static_cast<float>(v);
+      dynamic_cast<RelativeDifferencePrior<float>&>(*L.P).set_epsilon(c.eps);
+    }
+  else if (what == "scalar")
+    {
+      c.scalar = static_cast<float>(v);
+      dynamic_cast<LogcoshPrior<float>&>(*L.P).set_scalar(c.scalar);
+    }
+  else if (what == "alpha")
+    {
+      c.alpha = v;
+      dynamic_cast<PLSPrior<float>&>(*L.P).set_alpha(v);
+    }
+  else if (what == "eta")
+    {
+      c.eta = v;
+      dynamic_cast<PLSPrior<float>&>(*L.P).set_eta(v);
+    }
+  else if (what == "only2d")
+    {
+      c.only2d = v != 0;
+      dynamic_cast<PLSPrior<float>&>(*L.P).set_only_2D(c.only2d);
+      emit("oset only2d " + std::string(c.only2d ? "1" : "0"), "ok");
+      return;
+    }
+  emit("oset " + what + " " + vh::hex(v), "ok");
+}
+static void
+o_anat(Life& L, const VoxP& a)
+{
+  L.c.anat = a;
+  dynamic_cast<PLSPrior<float>&>(*L.P).set_anatomical_image_sptr(a);
+  emit("oanat " + dump(*a, L.c.b), "ok");
+}
+static void
+o_setup(Life& L)
+{
+  if (L.P->set_up(L.cur) != Succeeded::yes)
+    throw std::runtime_error("set_up failed");
+  emit("osetup", "ok");
+}
+// new images of the current box / voxel size
+static void
+o_images(Life& L, vh::Rng& rng)
+{
+  const Box& b = L.c.b;
+  L.cur = mk(b, L.c.sp);
+  L.inp = mk(b, L.c.sp);
+  L.out0 = mk(b, L.c.sp);
+  fill_positive(*L.cur, b, rng, true, 0.5F, L.c.kind == 'P' ? 2.5F : 8.5F);
+  fill_signed(*L.inp, b, rng, 2.F);
+  fill_signed(*L.out0, b, rng, 4.F);
+  L.rz = rng.range(b.z0, b.z1);
+  L.ry = rng.range(b.y0, b.y1);
+  L.rx = rng.range(b.x0, b.x1);
+}
+static void
+o_emit_images(const Life& L)
+{
+  emit("img cur " + dump(*L.cur, L.c.b), "ok");
+  if (L.c.kind != 'P')
+    {
+      emit("img inp " + dump(*L.inp, L.c.b), "ok");
+      emit("img out " + dump(*L.out0, L.c.b), "ok");
+    }
+}
+static std::string
+o_call(Life& L, const std::string& fn)
+{
+  const std::string a = call_fn(L.c.kind, *L.P, fn, L);
+  emit(fn_op(fn, L), a);
+  return a;
+}
+static Array<3, float>
+o_wts(Life& L)
+{
+  const Array<3, float> w = read_weights(L.c, *L.P);
+  emit("owts", wts_answer(w));
+  return w;
+}
+// a FRESH object with the members of L (weights: `w` if not empty, else the defaults it computes itself), set up for L.cur
+static shared_ptr<Prior>
+fresh_like(const Life& L, const Array<3, float>& w)
+{
+  Cfg f = L.c;
+  f.userw = w.get_length() > 0;
+  f.w = w;
+  shared_ptr<Prior> p = build(f, f.pf, L.cur);
+  return p;
+}
+// every API function on the object (ops) and on `ref` (not in the ops): the answers must be the same bit for bit
+static void
+o_all_calls_vs(Life& L, Prior& ref, const std::string& what, const std::string& key = "")
+{
+  for (const std::string& fn : fns_of(L.c.kind))
+    {
+      const std::string a = o_call(L, fn);
+      const std::string r = call_fn(L.c.kind, ref, fn, L);
+      verdict(a == r, L.c, what + " [" + fn + "]", 0, 0, 0, key);
+    }
+}
+
+static Cfg
+default_weights_cfg(vh::Rng& rng, char kind, int k, bool thorough)
+{
+  Cfg c = gen_cfg(rng, kind, k, thorough);
+  c.userw = false;
+  c.wclass = "default";
+  c.w = Array<3, float>();
+  return c;
+}
+
+// ---- gap 1: the first call on a fresh object is F, for every API function F
+static void
+session_first_call(vh::Rng& rng, char kind, int k, bool thorough)
+{
+  ++case_id;
+  Life L;
+  L.c = default_weights_cfg(rng, kind, k % 8 == 0 ? 5 : k, thorough);
+  if (k % 5 != 4 && L.c.pf == 0.F)
+    L.c.pf = 1.5F;
+  if (k % 5 == 4)
+    L.c.pf = 0.F; // nothing is computed, the weights stay empty
+  o_images(L, rng);
+  // reference: the object every other test uses (compute_value first)
+  shared_ptr<Prior> Pv = build(L.c, L.c.pf, L.cur);
+  Pv->compute_value(*L.cur);
+  const Array<3, float> Wv = read_weights(L.c, *Pv);
+  const std::vector<std::string> fns = fns_of(kind);
+  for (const std::string& fn : fns)
+    {
+      o_new(L);
+      o_box(L);
+      o_kappa(L, L.c.kappa);
+      o_setup(L);
+      if (&fn == &fns[0])
+        o_emit_images(L);
+      const Array<3, float> W0 = o_wts(L);
+      verdict(W0.get_length() == 0, L.c, "a new object has no weights before its first use", W0.get_length(), 0, 0);
+      const std::string a = o_call(L, fn);
+      const Array<3, float> W1 = o_wts(L);
+      verdict(W1 == Wv, L.c, "weights after a first call of " + fn + " = weights after a first call of compute_value", 0, 0, 0);
+      verdict(a == call_fn(kind, *Pv, fn, L), L.c, "result of " + fn + " as first call = result on the object that computed its value first", 0, 0, 0);
+      // and a second, different function on the same object
+      const std::string& g = fns[rng.range(0, static_cast<int>(fns.size()) - 1)];
+      const std::string a2 = o_call(L, g);
+      verdict(a2 == call_fn(kind, *Pv, g, L), L.c, "result of " + g + " after a first call of " + fn + " = result on the value-first object", 0, 0, 0);
+      verdict(read_weights(L.c, *L.P) == Wv, L.c, "weights are computed once", 0, 0, 0);
+    }
+}
+
+// ---- gap 2: one object, two images (other size and/or other voxel size); set_up again in between
+static void
+session_second_image(vh::Rng& rng, char kind, int k, bool thorough)
+{
+  ++case_id;
+  Life L;
+  L.c = gen_cfg(rng, kind, k, thorough);
+  if (k % 3 != 2)
+    {
+      L.c.userw = false;
+      L.c.wclass = "default";
+      L.c.w = Array<3, float>();
+    }
+  if (L.c.pf == 0.F && k % 7 != 6)
+    L.c.pf = 2.F;
+  const std::vector<std::string> fns = fns_of(kind);
+  o_new(L);
+  if (L.c.userw)
+    o_setw(L, L.c.w);
+  o_box(L);
+  o_images(L, rng);
+  o_kappa(L, L.c.kappa);
+  if (kind == 'P')
+    {
+      o_set(L, "only2d", L.c.only2d);
+      o_set(L, "alpha", L.c.alpha);
+      o_set(L, "eta", L.c.eta);
+      o_anat(L, L.c.anat);
+    }
+  o_setup(L);
+  o_emit_images(L);
+  o_call(L, fns[rng.range(0, static_cast<int>(fns.size()) - 1)]);
+  o_wts(L);
+  // the second image
+  const Cfg c2 = gen_cfg(rng, kind, k + 3, thorough);
+  const int mode = k % 4; // 0: other size, same voxel size; 1: same size, other voxel size; 2, 3: both differ
+  if (mode != 1)
+    L.c.b = c2.b;
+  const bool same_spacing = mode == 0;
+  if (!same_spacing)
+    {
+      L.c.sp[0] = c2.sp[0];
+      L.c.sp[1] = c2.sp[1];
+      L.c.sp[2] = c2.sp[2] == L.c.sp[2] && c2.sp[1] == c2.sp[2] ? c2.sp[2] + 0.5F : c2.sp[2];
+    }
+  o_box(L);
+  o_images(L, rng);
+  VoxP k2;
+  if (L.c.kappa)
+    {
+      k2 = mk(L.c.b, L.c.sp);
+      fill_positive(*k2, L.c.b, rng, true, 0.5F, 2.F);
+    }
+  o_kappa(L, k2);
+  if (kind == 'P')
+    {
+      VoxP a2 = mk(L.c.b, L.c.sp);
+      fill_positive(*a2, L.c.b, rng, true, 0.F, 4.F);
+      o_anat(L, a2);
+    }
+  o_setup(L);
+  o_emit_images(L);
+  // "every voxel spacing": the object must behave like a fresh object for the new image.  With default weights it does not when
+  // the voxel size changes: the weights computed from the first image are kept (known finding)
+  shared_ptr<Prior> F = fresh_like(L, L.c.userw ? L.c.w : Array<3, float>());
+  const bool may_be_stale = kind != 'P' && !L.c.userw && !same_spacing;
+  o_all_calls_vs(L, *F, "an object set up again for another image gives the result of a fresh object", may_be_stale ? KEY_STALE : "");
+  const Array<3, float> W = o_wts(L);
+  if (kind != 'P')
+    verdict(W == read_weights(L.c, *F), L.c, "weights of an object set up again for another image = weights of a fresh object", 0, 0, 0,
+            may_be_stale ? KEY_STALE : "");
+  // all clauses of the property on the re-used object (value, gradient and Hessian must be consistent whatever weights it holds)
+  if (L.c.pf != 0.F)
+    run_case(L.c, rng, kind != 'Q', L.P);
+}
+
+static std::string
+dec(double v)
+{
+  char buf[64];
+  std::snprintf(buf, sizeof buf, "%.9g", v);
+  return buf;
+}
+static std::string
+remove_image_files(const std::string& stem)
+{
+  std::remove((stem + ".hv").c_str());
+  std::remove((stem + ".v").c_str());
+  std::remove((stem + ".ahv").c_str());
+  return stem;
+}
+
+// ---- gap 3: the object is configured by parse(): `weights :=`, `only 2D`, `kappa filename`, ...
+// shape: 0 = no weights key, 1 = 3x3x3, 2 = 5x5x5, 3 = 1x3x3, 4.. = even sizes, 9 = ragged (parse error)
+static void
+session_parse(vh::Rng& rng, char kind, int k, bool thorough, int shape)
+{
+  ++case_id;
+  Life L;
+  L.c = gen_cfg(rng, kind, k, thorough);
+  Cfg& c = L.c;
+  if (c.pf == 0.F)
+    c.pf = 0.75F;
+  // images read from file have index ranges 0.., -(n/2).., -(n/2)..: the kappa image must have the characteristics of the image
+  {
+    const int nz = c.b.nz(), ny = c.b.ny(), nx = c.b.nx();
+    c.b = Box{ 0, nz - 1, -(ny / 2), -(ny / 2) + ny - 1, -(nx / 2), -(nx / 2) + nx - 1 };
+  }
+  const bool pls = kind == 'P';
+  if (c.kappa)
+    {
+      c.kappa = mk(c.b, c.sp);
+      fill_positive(*c.kappa, c.b, rng, true, 0.5F, 2.F);
+    }
+  if (pls)
+    {
+      c.anat = mk(c.b, c.sp);
+      fill_positive(*c.anat, c.b, rng, true, 0.F, 4.F);
+    }
+  o_images(L, rng);
+  int nz = 0, ny = 0, nx = 0;
+  switch (shape)
+    {
+    case 1: nz = ny = nx = 3; break;
+    case 2: nz = ny = nx = 5; break;
+    case 3: nz = 1; ny = nx = 3; break;
+    case 4: nz = 2; ny = nx = 3; break;
+    case 5: nz = 3; ny = 2; nx = 3; break;
+    case 6: nz = 3; ny = 3; nx = 4; break;
+    case 7: nz = ny = nx = 2; break;
+    case 8: nz = 1; ny = 1; nx = 2; break;
+    case 9: nz = 2; ny = 2; nx = 3; break;
+    default: break;
+    }
+  if (pls)
+    nz = ny = nx = 0;
+  // weights as written in the parameter file: a[z][y][x], indices from 0; symmetric about the middle element for odd sizes
+  std::vector<std::vector<std::vector<float>>> a(nz, std::vector<std::vector<float>>(ny, std::vector<float>(nx, 0.F)));
+  for (int z = 0; z < nz; ++z)
+    for (int y = 0; y < ny; ++y)
+      for (int x = 0; x < nx; ++x)
+        a[z][y][x] = rng.range(0, 5) == 0 ? 0.F : static_cast<float>(rng.range(1, 64)) / 32.F;
+  const bool all_odd = nz % 2 == 1 && ny % 2 == 1 && nx % 2 == 1;
+  if (all_odd)
+    {
+      for (int z = 0; z < nz; ++z)
+        for (int y = 0; y < ny; ++y)
+          for (int x = 0; x < nx; ++x)
+            a[nz - 1 - z][ny - 1 - y][nx - 1 - x] = a[z][y][x];
+      a[nz / 2][ny / 2][nx / 2] = rng.coin() ? 0.F : 0.5F;
+    }
+  if (shape == 9)
+    a[1][1].pop_back(); // ragged
+  c.userw = nz > 0;
+  c.wclass = nz == 0 ? "default" : (all_odd ? "sym" : "asym");
+  c.only2d = pls ? rng.coin() : (nz == 0 ? rng.coin() : c.only2d);
+
+  // ---- the parameter text
+  std::ostringstream t, op;
+  const char* const name = kind == 'Q' ? "Quadratic Prior Parameters" : kind == 'R' ? "Relative Difference Prior Parameters" : kind == 'L' ? "Logcosh Prior Parameters" : "PLS Prior Parameters";
+  t << name << ":=\n penalisation factor := " << dec(c.pf) << "\n only 2D := " << (c.only2d ? 1 : 0) << "\n";
+  if (kind == 'R')
+    t << " gamma value := " << dec(c.gamma) << "\n epsilon value := " << dec(c.eps) << "\n";
+  if (kind == 'L')
+    t << " scalar := " << dec(c.scalar) << "\n";
+  if (pls)
+    t << " alpha := " << dec(c.alpha) << "\n eta := " << dec(c.eta) << "\n";
+  std::string kstem, astem;
+  if (c.kappa)
+    {
+      kstem = scratch_prefix + "_kappa" + std::to_string(case_id);
+      write_to_file(kstem + ".hv", *c.kappa);
+      t << " kappa filename := " << kstem << ".hv\n";
+    }
+  if (pls)
+    {
+      astem = scratch_prefix + "_anat" + std::to_string(case_id);
+      write_to_file(astem + ".hv", *c.anat);
+      t << " anatomical_filename := " << astem << ".hv\n";
+    }
+  op << "oparse " << kind << ' ' << vh::hex(c.pf) << ' ' << (c.only2d ? 1 : 0) << ' ' << vh::hex(c.gamma) << ' ' << vh::hex(c.eps) << ' '
+     << vh::hex(c.scalar) << " W " << nz;
+  if (nz > 0)
+    {
+      t << " weights := {";
+      for (int z = 0; z < nz; ++z)
+        {
+          t << (z ? ", {" : "{");
+          op << ' ' << a[z].size();
+          for (size_t y = 0; y < a[z].size(); ++y)
+            {
+              t << (y ? ", {" : "{");
+              op << ' ' << a[z][y].size();
+              for (size_t x = 0; x < a[z][y].size(); ++x)
+                {
+                  t << (x ? "," : "") << dec(a[z][y][x]);
+                  op << ' ' << vh::hex(a[z][y][x]);
+                }
+              t << "}";
+            }
+          t << "}";
+        }
+      t << "}\n";
+    }
+  t << "END " << name << ":=\n";
+
+  if (kind == 'Q')
+    L.P.reset(new QuadraticPrior<float>());
+  else if (kind == 'R')
+    L.P.reset(new RelativeDifferencePrior<float>());
+  else if (kind == 'L')
+    L.P.reset(new LogcoshPrior<float>());
+  else
+    L.P.reset(new PLSPrior<float>());
+  std::istringstream is(t.str());
+  const bool parsed = L.P->parse(is);
+  if (!kstem.empty())
+    remove_image_files(kstem);
+  if (!astem.empty())
+    remove_image_files(astem);
+  emit(op.str(), parsed ? "ok" : "err");
+  verdict(parsed == (shape != 9), c, "parse() accepts regular weights arrays and rejects ragged ones", parsed, shape != 9, 0);
+  if (!parsed)
+    return;
+  o_box(L);
+  if (pls)
+    {
+      PLSPrior<float>& pp = dynamic_cast<PLSPrior<float>&>(*L.P);
+      emit("oset alpha " + vh::hex(pp.get_alpha()), "ok");
+      emit("oset eta " + vh::hex(pp.get_eta()), "ok");
+      verdict(pp.get_alpha() == c.alpha && pp.get_eta() == c.eta && pp.get_only_2D() == c.only2d, c, "parse() stores alpha, eta, only 2D", pp.get_alpha(), c.alpha, 0);
+      shared_ptr<const Img> an = pp.get_anatomical_image_sptr();
+      std::string why;
+      const bool same = an && an->has_same_characteristics(*L.cur, why);
+      verdict(same, c, "anatomical image read from `anatomical_filename` has the characteristics of the image written", 0, 0, 0);
+      if (!same)
+        return;
+      emit("oanat " + dump(*an, c.b), "ok");
+      verdict(dump(*an, c.b) == dump(*c.anat, c.b), c, "anatomical image read from file = image written", 0, 0, 0);
+    }
+  {
+    shared_ptr<const Img> kp = get_kappa_of(kind, *L.P);
+    verdict(!kp == !c.kappa, c, "kappa is read from `kappa filename`", !kp, !c.kappa, 0);
+    std::string why;
+    if (kp && !kp->has_same_characteristics(*L.cur, why))
+      {
+        verdict(false, c, "kappa image read from file has the characteristics of the image written: " + why, 0, 0, 0);
+        return;
+      }
+    emit(kp ? "okappa 1 " + dump(*kp, c.b) : std::string("okappa 0"), "ok");
+    if (kp && c.kappa)
+      verdict(dump(*kp, c.b) == dump(*c.kappa, c.b), c, "kappa image read from file = image written", 0, 0, 0);
+  }
+  verdict(L.P->get_penalisation_factor() == c.pf, c, "parse() stores the penalisation factor", L.P->get_penalisation_factor(), c.pf, 0);
+  o_setup(L);
+  o_emit_images(L);
+  Array<3, float> W = pls ? Array<3, float>() : o_wts(L);
+  if (!pls)
+    {
+      // documented: the middle element of each dimension gets index 0
+      Array<3, float> E;
+      if (nz > 0)
+        {
+          E = Array<3, float>(IndexRange3D(-(nz / 2), -(nz / 2) + nz - 1, -(ny / 2), -(ny / 2) + ny - 1, -(nx / 2), -(nx / 2) + nx - 1));
+          for (int z = 0; z < nz; ++z)
+            for (int y = 0; y < ny; ++y)
+              for (int x = 0; x < nx; ++x)
+                E[z - nz / 2][y - ny / 2][x - nx / 2] = a[z][y][x];
+        }
+      verdict(W == E, c, "weights given with `weights :=` are re-indexed to -n/2 .. (values in the order written)", 0, 0, 0);
+      c.w = W;
+    }
+  // reference: the same configuration made with the constructor and the setters (default weights: `only 2D` as parsed, which only
+  // QuadraticPrior's constructor can express: take the weights the parsed object computes)
+  const std::string first = o_call(L, "value");
+  if (!pls)
+    W = o_wts(L);
+  {
+    Cfg f = c;
+    f.userw = W.get_length() > 0;
+    f.w = W;
+    shared_ptr<Prior> F = build(f, f.pf, L.cur);
+    verdict(first == call_fn(kind, *F, "value", L), c, "object configured by parse() = object configured by constructor and setters [value]", 0, 0, 0);
+    o_all_calls_vs(L, *F, "object configured by parse() = object configured by constructor and setters");
+    if (!pls && nz == 0)
+      {
+        // default weights of a parsed object: 1x3x3 if `only 2D`, else 3x3x3 (RDP and log-cosh can be 2-D only through the parser)
+        const Box wb = wbox(W);
+        verdict(wb.z0 == (c.only2d ? 0 : -1) && wb.z1 == (c.only2d ? 0 : 1) && wb.y0 == -1 && wb.y1 == 1 && wb.x0 == -1 && wb.x1 == 1, c,
+                "`only 2D` selects 1x3x3 default weights", wb.z0, c.only2d ? 0 : -1, 0);
+      }
+  }
+  c.userw = W.get_length() > 0;
+  run_case(c, rng, kind != 'Q', L.P);
+}
+
+// ---- gap 4: setters on an object that has been used
+static void
+session_setters(vh::Rng& rng, char kind, int k, bool thorough)
+{
+  ++case_id;
+  Life L;
+  L.c = gen_cfg(rng, kind, k, thorough);
+  Cfg& c = L.c;
+  const bool pls = kind == 'P';
+  if (k % 4 == 3)
+    c.pf = 0.F; // used first with penalisation factor 0 (nothing computed), then switched on
+  else if (c.pf == 0.F)
+    c.pf = 1.25F;
+  const std::vector<std::string> fns = fns_of(kind);
+  o_new(L);
+  if (c.userw)
+    o_setw(L, c.w);
+  o_box(L);
+  o_images(L, rng);
+  o_kappa(L, c.kappa);
+  if (pls)
+    {
+      o_set(L, "only2d", c.only2d);
+      o_set(L, "alpha", c.alpha);
+      o_set(L, "eta", c.eta);
+      o_anat(L, c.anat);
+    }
+  o_setup(L);
+  o_emit_images(L);
+  o_call(L, "value");
+  o_call(L, fns[rng.range(0, static_cast<int>(fns.size()) - 1)]);
+  bool stale = false; // PLS: true while only_2D / eta differ from the values set_up used (the anatomical norm it stored is then stale)
+  if (!pls)
+    o_wts(L);
+  const int nsteps = 4;
+  for (int step = 0; step < nsteps; ++step)
+    {
+      // which member changes
+      int what = step == 0 ? 0 : rng.range(0, 4);
+      std::string v_prev;
+      const float pf_prev = c.pf;
+      if (what == 0)
+        {
+          v_prev = o_call(L, "value");
+          float npf = static_cast<float>(rng.range(1, 80)) / 16.F;
+          if (step > 0 && rng.range(0, 4) == 0)
+            npf = 0.F;
+          o_set(L, "pf", npf);
+        }
+      else if (what == 1)
+        {
+          if (kind == 'R')
+            {
+              o_set(L, "gamma", static_cast<float>(rng.range(0, 12)) / 4.F);
+              o_set(L, "eps", static_cast<float>(rng.range(1, 32)) / 16.F);
+            }
+          else if (kind == 'L')
+            o_set(L, "scalar", static_cast<float>(rng.range(2, 24)) / 8.F);
+          else if (pls)
+            o_set(L, "alpha", 1. + rng.range(0, 16) / 8.);
+          else
+            o_set(L, "pf", static_cast<float>(rng.range(1, 80)) / 16.F);
+        }
+      else if (what == 2)
+        {
+          if (pls)
+            {
+              // eta / only_2D enter the anatomical norm that set_up() stores: with or without a new set_up
+              if (rng.coin())
+                o_set(L, "eta", 0.5 + rng.range(0, 12) / 8.);
+              else if (!c.only2d)
+                o_set(L, "only2d", 1); // 3-D -> 2-D (the other way needs the z-gradient that a 2-D set_up does not make)
+              if (rng.coin())
+                {
+                  o_setup(L);
+                  stale = false;
+                }
+              else
+                stale = true;
+            }
+          else
+            {
+              // other user weights, or none (the defaults are computed again at the next use)
+              const int m = rng.range(0, 3);
+              if (m == 0)
+                {
+                  c.userw = false;
+                  c.wclass = "default";
+                  o_setw(L, Array<3, float>());
+                }
+              else
+                {
+                  c.userw = true;
+                  c.wclass = "sym";
+                  c.w = user_weights(rng, m == 1 ? 1 : rng.range(0, 2), 1, m == 3 ? 2 : 1, "sym");
+                  o_setw(L, c.w);
+                }
+              o_setup(L); // RelativeDifferencePrior::set_weights resets _already_set_up
+            }
+        }
+      else if (what == 3)
+        {
+          VoxP k2;
+          if (rng.range(0, 2) > 0)
+            {
+              k2 = mk(c.b, c.sp);
+              fill_positive(*k2, c.b, rng, true, 0.5F, 2.F);
+            }
+          o_kappa(L, k2);
+          o_setup(L); // RelativeDifferencePrior::set_kappa_sptr resets _already_set_up
+        }
+      else
+        {
+          // new image values, same object
+          o_images(L, rng);
+          o_emit_images(L);
+        }
+      const Array<3, float> Wnow = pls ? Array<3, float>() : read_weights(c, *L.P);
+      if (!stale)
+        {
+          // a fresh object with the present members (and the weights the object holds, if any)
+          shared_ptr<Prior> F = fresh_like(L, Wnow);
+          o_all_calls_vs(L, *F, "object after setters = fresh object with the same members");
+        }
+      else
+        for (const std::string& fn : fns)
+          o_call(L, fn);
+      if (!pls)
+        {
+          const Array<3, float> W = o_wts(L);
+          if (!c.userw && c.pf != 0.F)
+            {
+              Cfg f = c;
+              shared_ptr<Prior> F0 = build(f, f.pf, L.cur);
+              F0->compute_value(*L.cur);
+              verdict(W == read_weights(c, *F0), c, "default weights of a re-configured object = default weights of a fresh object", 0, 0, 0);
+            }
+        }
+      // linear in the penalisation factor, on ONE object
+      const std::string v_now = call_fn(kind, *L.P, "value", L);
+      if (what == 0 && pf_prev != 0.F && c.pf != 0.F)
+        {
+          const double a = std::strtod(v_now.c_str(), nullptr) * pf_prev, e = std::strtod(v_prev.c_str(), nullptr) * c.pf;
+          verdict(std::fabs(a - e) <= 64 * UF * std::fabs(e), c, "value scales linearly with the penalisation factor (set_penalisation_factor on a used object)", a, e, 64 * UF * std::fabs(e));
+        }
+      if (what == 0 && c.pf == 0.F)
+        verdict(std::strtod(v_now.c_str(), nullptr) == 0., c, "value is 0 after set_penalisation_factor(0)", std::strtod(v_now.c_str(), nullptr), 0, 0);
+    }
+  if (stale)
+    o_setup(L);
+  // all clauses of the property on the object as it is now
+  if (c.pf != 0.F)
+    run_case(c, rng, kind != 'Q', L.P);
+}
+
+
+// The Lean instance C09_default_weights_stale_after_set_up_fails replayed on the implementation: QuadraticPrior(false, 1) used once with an
+// image of voxel size (1,1,1), then set up again for the 1x2x1 image (3,1) of voxel size (z,y,x) = (1,2,1): value 2, fresh object 1.
+static void
+replay_stale_witness()
+{
+  ++case_id;
+  Cfg c;
+  c.kind = 'Q';
+  c.b = Box{ 0, 0, 0, 1, 0, 0 };
+  c.sp[0] = 1.F;
+  c.sp[1] = 2.F;
+  c.sp[2] = 1.F;
+  c.pf = 1.F;
+  c.only2d = false;
+  c.gamma = c.eps = c.scalar = 0.F;
+  c.alpha = c.eta = 0.;
+  c.userw = false;
+  c.wclass = "default";
+  const float sp1[3] = { 1.F, 1.F, 1.F };
+  VoxP first = mk(c.b, sp1), l = mk(c.b, c.sp);
+  first->fill(1.F);
+  (*l)[0][0][0] = 3.F;
+  (*l)[0][1][0] = 1.F;
+  shared_ptr<Prior> P = build(c, c.pf, first);
+  P->compute_value(*first);
+  P->set_up(l);
+  const double used = P->compute_value(*l);
+  shared_ptr<Prior> F = build(c, c.pf, l);
+  const double fresh = F->compute_value(*l);
+  verdict(fresh == 1., c, "the implementation reproduces the number of the Lean instance (fresh object)", fresh, 1, 0);
+  verdict(used == 2. || used == 1., c, "the implementation reproduces the number of the Lean negative witness (re-used object)", used, 2, 0);
+  verdict(used == fresh, c, "an object set up again for another image gives the result of a fresh object (Lean negative witness replayed)", used, fresh, 0, KEY_STALE);
+}
+
 int
 main(int argc, char** argv)
 {
@@ -1059,6 +1882,7 @@ main(int argc, char** argv)
   orc = std::fopen((std::string(argv[4]) + ".oracle").c_str(), "w");
   if (!ops || !out || !orc)
     return 2;
+  scratch_prefix = argv[4];
   vh::quiet();
   vh::Rng rng(seed * 0x100000001B3ULL + 0xC09);
 
@@ -1074,6 +1898,25 @@ main(int argc, char** argv)
       for (int k = 0; k < nP; ++k)
         run_case(gen_cfg(rng, 'P', k, thorough), rng, true);
       replay_witnesses();
+      replay_stale_witness();
+      // ---- object life cycle (see above)
+      {
+        const char k4[4] = { 'Q', 'R', 'L', 'P' };
+        const int m = thorough ? 3 : 1;
+        for (int ki = 0; ki < 3; ++ki)
+          for (int k = 0; k < 10 * m; ++k)
+            session_first_call(rng, k4[ki], k, thorough);
+        for (int ki = 0; ki < 4; ++ki)
+          for (int k = 0; k < (ki == 0 ? 12 : 8) * m; ++k)
+            session_second_image(rng, k4[ki], k + 1, thorough);
+        for (int ki = 0; ki < 4; ++ki)
+          for (int rep = 0; rep < m; ++rep)
+            for (int shape = 0; shape <= (ki == 3 ? 2 : 9); ++shape)
+              session_parse(rng, k4[ki], 3 + shape + rep, thorough, shape);
+        for (int ki = 0; ki < 4; ++ki)
+          for (int k = 0; k < 8 * m; ++k)
+            session_setters(rng, k4[ki], k + 1, thorough);
+      }
       // PLS: 3-D case without kappa and with a spatially varying kappa (present for every seed; the two classes of inputs on which the
       // gradient was not the derivative of the value before the repairs C09-1 / C09-2)
       for (int k = 0; k < 2; ++k)
